@@ -1,5 +1,6 @@
 import Qats.Model.Motion
 import Qats.Lemmas.RealOps
+import Qats.Lemmas.MotionGrad
 import Mathlib.Tactic
 /-!
 Main lemmas behind the C20 property theorems (statements fixed by `Qats/Props/C20.lean`).
@@ -17,63 +18,108 @@ noncomputable def rotZ (r : ℝ) (v : V3 ℝ) : V3 ℝ := ⟨Real.cos r * v.x - 
 def normSq (v : V3 ℝ) : ℝ := v.x ^ 2 + v.y ^ 2 + v.z ^ 2
 def sub3 (a b : V3 ℝ) : V3 ℝ := ⟨a.x - b.x, a.y - b.y, a.z - b.z⟩
 
+@[simp] theorem tcos_real (x : ℝ) : (TranscOps.cos x : ℝ) = Real.cos x := rfl
+@[simp] theorem tsin_real (x : ℝ) : (TranscOps.sin x : ℝ) = Real.sin x := rfl
+@[simp] theorem tpi_real : (TranscOps.pi : ℝ) = Real.pi := rfl
+
+theorem V3.ext' {α : Type} {a b : V3 α} (hx : a.x = b.x) (hy : a.y = b.y) (hz : a.z = b.z) : a = b := by
+  cases a; cases b; simp_all
+
 theorem rotate_eq_zyx' (rx ry rz : ℝ) (v : V3 ℝ) : rotate rx ry rz v = rotZ rz (rotY ry (rotX rx v)) := by
-  sorry
+  apply V3.ext' <;>
+  simp only [rotate, rotX, rotY, rotZ, mo_r00, mo_r01, mo_r02, mo_r10, mo_r11, mo_r12, mo_r20, mo_r21, mo_r22,
+    tcos_real, tsin_real] <;> ring
+
+theorem rotX_normSq (r : ℝ) (v : V3 ℝ) : normSq (rotX r v) = normSq v := by
+  simp only [normSq, rotX]
+  linear_combination (v.y ^ 2 + v.z ^ 2) * Real.cos_sq_add_sin_sq r
+
+theorem rotY_normSq (r : ℝ) (v : V3 ℝ) : normSq (rotY r v) = normSq v := by
+  simp only [normSq, rotY]
+  linear_combination (v.x ^ 2 + v.z ^ 2) * Real.cos_sq_add_sin_sq r
+
+theorem rotZ_normSq (r : ℝ) (v : V3 ℝ) : normSq (rotZ r v) = normSq v := by
+  simp only [normSq, rotZ]
+  linear_combination (v.x ^ 2 + v.y ^ 2) * Real.cos_sq_add_sin_sq r
 
 theorem rotate_normSq' (rx ry rz : ℝ) (v : V3 ℝ) : normSq (rotate rx ry rz v) = normSq v := by
-  sorry
+  rw [rotate_eq_zyx', rotZ_normSq, rotY_normSq, rotX_normSq]
+
+theorem rotate_sub3 (rx ry rz : ℝ) (a b : V3 ℝ) :
+    sub3 (rotate rx ry rz a) (rotate rx ry rz b) = rotate rx ry rz (sub3 a b) := by
+  apply V3.ext' <;> simp only [rotate, sub3] <;> ring
+
+theorem transformStep_sub3 (deg : Bool) (pos : V3 ℝ) (rx ry rz : ℝ) (a b : V3 ℝ) :
+    sub3 (transformStep deg pos rx ry rz a) (transformStep deg pos rx ry rz b) =
+      rotate (if deg then radians rx else rx) (if deg then radians ry else ry) (if deg then radians rz else rz)
+        (sub3 a b) := by
+  rw [← rotate_sub3]
+  apply V3.ext' <;> simp only [transformStep, sub3] <;> ring
 
 theorem transform_rigid' (deg : Bool) (pos : V3 ℝ) (rx ry rz : ℝ) (a b : V3 ℝ) :
     normSq (sub3 (transformStep deg pos rx ry rz a) (transformStep deg pos rx ry rz b)) = normSq (sub3 a b) := by
-  sorry
+  rw [transformStep_sub3, rotate_normSq']
+
+theorem radians_zero : radians (0 : ℝ) = 0 := by simp [radians]
+
+theorem rotate_zero (v : V3 ℝ) : rotate 0 0 0 v = v := by
+  apply V3.ext' <;>
+  simp [rotate, mo_r00, mo_r01, mo_r02, mo_r10, mo_r11, mo_r12, mo_r20, mo_r21, mo_r22]
 
 theorem transform_zero_rotation' (deg : Bool) (pos ref : V3 ℝ) :
     transformStep deg pos 0 0 0 ref = ⟨ref.x + pos.x, ref.y + pos.y, ref.z + pos.z⟩ := by
-  sorry
+  simp only [transformStep, radians_zero, ite_self, rotate_zero]
+
+theorem radians_eq (d : ℝ) : radians d = d * (Real.pi / 180) := by
+  simp only [radians, tpi_real]; norm_num
 
 theorem transform_deg_rad' (pos ref : V3 ℝ) (rx ry rz : ℝ) :
     transformStep true pos rx ry rz ref =
       transformStep false pos (rx * (Real.pi / 180)) (ry * (Real.pi / 180)) (rz * (Real.pi / 180)) ref := by
-  sorry
+  simp only [transformStep, radians_eq, if_true, if_false, Bool.false_eq_true]
 
 /-! ### gradient (any linearly ordered field) -/
 section grad
+-- the section variables are part of the fixed statements (shared with `Qats/Props/C20.lean`)
+set_option linter.unusedSectionVars false
 variable {α : Type} [Field α] [LinearOrder α] [IsStrictOrderedRing α] [OfScientific α] [TranscOps α]
 
-theorem gradient_length' (t x g : List α) (h : gradient t x = some g) : g.length = x.length := by
-  sorry
+theorem gradient_length' (t x g : List α) (h : gradient t x = some g) : g.length = x.length :=
+  gradient_length_aux t x g h
 
-theorem gradient_some' (t x : List α) (hl : t.length = x.length) (h2 : 2 ≤ x.length) : ∃ g, gradient t x = some g := by
-  sorry
+theorem gradient_some' (t x : List α) (hl : t.length = x.length) (h2 : 2 ≤ x.length) : ∃ g, gradient t x = some g :=
+  gradient_some_aux t x hl h2
 
 /-- Linear in the signal. -/
 theorem gradient_linear' (t x y gx gy : List α) (a b : α) (hxy : x.length = y.length)
     (hx : gradient t x = some gx) (hy : gradient t y = some gy) :
-    gradient t (List.zipWith (fun u v => a * u + b * v) x y) = some (List.zipWith (fun u v => a * u + b * v) gx gy) := by
-  sorry
+    gradient t (List.zipWith (fun u v => a * u + b * v) x y) = some (List.zipWith (fun u v => a * u + b * v) gx gy) :=
+  gradient_linear_aux t x y gx gy a b hxy hx hy
 
 /-- Exact everywhere for an affine signal on any strictly increasing time grid. -/
 theorem gradient_affine' (t : List α) (p q : α) (ht : t.Pairwise (· < ·)) (h2 : 2 ≤ t.length) :
-    gradient t (t.map fun u => p * u + q) = some (List.replicate t.length p) := by
-  sorry
+    gradient t (t.map fun u => p * u + q) = some (List.replicate t.length p) :=
+  gradient_affine_aux t p q ht h2
 
 /-- Exact at interior samples for a quadratic signal on any strictly increasing time grid. -/
 theorem gradient_quadratic' (t g : List α) (a b c : α) (ht : t.Pairwise (· < ·))
     (hg : gradient t (t.map fun u => a * u * u + b * u + c) = some g) (i : Nat) (hi : 1 ≤ i) (hi' : i + 1 < t.length)
-    (ti : α) (hti : t[i]? = some ti) : g[i]? = some (2 * a * ti + b) := by
-  sorry
+    (ti : α) (hti : t[i]? = some ti) : g[i]? = some (2 * a * ti + b) :=
+  gradient_quadratic_aux t g a b c ht hg i hi hi' ti hti
 
 /-- Acceleration (gradient applied twice) of a quadratic signal is exact from the third to the third-last sample. -/
 theorem acceleration_quadratic' (t acc : List α) (a b c : α) (ht : t.Pairwise (· < ·))
     (hacc : acceleration (t.map fun u => a * u * u + b * u + c) (.inr t) = some acc) (i : Nat) (hi : 2 ≤ i)
     (hi' : i + 2 < t.length) : acc[i]? = some (2 * a) := by
-  sorry
+  simp only [acceleration, velocity] at hacc
+  obtain ⟨v, hv, hacc⟩ := Option.bind_eq_some_iff.mp hacc
+  exact gradient_gradient_quadratic t v acc a b c ht hv hacc i hi hi'
 
 /-- The time grid of a scalar step is strictly increasing, so the scalar-step case is an instance of the above. -/
 theorem stepTimes_spec' (h : α) (hh : 0 < h) (n : Nat) (s : α) :
     (stepTimes h n s).length = n ∧ (stepTimes h n s).Pairwise (· < ·) ∧
-      ∀ i, i < n → (stepTimes h n s)[i]? = some (s + i * h) := by
-  sorry
+      ∀ i, i < n → (stepTimes h n s)[i]? = some (s + i * h) :=
+  stepTimes_spec_aux h hh n s
 
 end grad
 end Qats.Motion
